@@ -84,9 +84,9 @@ def run_shard(spec, acc):
                                 acc.violation(f"L1:unexpected-exception:{type(r[1]).__name__}", f"{cell} {tag}: {r[1]!r}", cell, cid)
                             elif r[0] == "ret" and r[1] is not None and not (r[1] is a_rep or (r[1] == a_rep and str(r[1]) == str(a_rep))):
                                 acc.violation("L1:returns-something-else", f"{cell} {tag}: returned {r[1]!r}", cell, cid)
+                        if rf[0] == "fixerror":
+                            acc.violation("L1:raises-when-asked-not-to" + ("" if k in supported else ":unsupported-kind"), f"{cell}", cell, cid)
                         if k in supported:
-                            if rf[0] == "fixerror":
-                                acc.violation("L1:raises-when-asked-not-to", f"{cell}", cell, cid)
                             exp_f = None if rt[0] != "ret" else rt[1]
                             if rf[0] == "ret" and rt[0] != "other" and not (rf[1] is exp_f or (rf[1] == exp_f and exp_f is not None)):
                                 acc.violation("L1:error-modes-disagree", f"{cell}: raise-mode {rt} vs no-raise {rf}", cell, cid)
@@ -134,6 +134,37 @@ def run_shard(spec, acc):
                                 acc.violation("L6:fix-matrix-transition-is-an-error", f"{cell}", cell, cid)
                         if idx % 20000 == 0:
                             acc.sample({"cell": cell, "raise_mode": str(rt), "noraise_mode": str(rf)}, 3)
+    # ---- statuses the library does not know (what a counterparty may put into tag 39, what an order restored from elsewhere may carry):
+    # the function stays total and closed - the reported value itself, 'no change', or the order error when asked to raise
+    foreign = ["5", "z", "a", "Z ", " 0", "00", "", None, 7]
+    vals = [x.value for x in statuses] + foreign
+    for cur in vals:
+        for rep in vals:
+            if cur not in foreign and rep not in foreign:
+                continue
+            for kind in kinds:
+                for ex in execs:
+                    idx += 1
+                    if idx % nsh != shard:
+                        continue
+                    k = kv(kind)
+                    a_ex = ex if ex in (0, None) else ex.value
+                    cell = {"current": repr(cur), "kind": k, "exec_type": getattr(ex, "name", ex), "reported": repr(rep), "form": "foreign"}
+                    cid = f"foreign:{cur!r}:{k}:{getattr(ex, 'name', ex)}:{rep!r}"
+                    if not acc.want(cid):
+                        continue
+                    acc.case_disjoint()
+                    acc.oracle("L1")
+                    acc.add("cells_with_a_status_outside_the_enumeration")
+                    for tag, r in (("raise", call(cur, k, a_ex, rep, True)), ("noraise", call(cur, k, a_ex, rep, False))):
+                        if r[0] == "other":
+                            acc.violation(f"L1:unexpected-exception:{type(r[1]).__name__}:foreign-status", f"{cell} {tag}: {r[1]!r}", cell, cid)
+                        elif r[0] == "fixerror" and tag == "noraise":
+                            acc.violation("L1:raises-when-asked-not-to" + ("" if k in supported else ":unsupported-kind"), f"{cell}", cell, cid)
+                        elif r[0] == "ret" and r[1] is not None and not (r[1] is rep or (type(r[1]) is type(rep) and r[1] == rep)):
+                            acc.violation("L1:returns-something-else:foreign-status", f"{cell} {tag}: returned {r[1]!r}", cell, cid)
+                        elif r[0] == "ret" and r[1] is not None and k not in supported:
+                            acc.violation("L1:unsupported-kind-yields-status", f"{cell}: {r[1]!r}", cell, cid)
     # helpers
     if shard == 0:
         for st in statuses:
